@@ -57,6 +57,7 @@ func init() {
 func c17(r *Report, s *Sem) {
 	p := r.P
 	a := s.anchors()
+	defer r.Import(s, "C07", "R1", "R7", "the id a session carries is the one generated for it: every session envelope a server channel emits takes its id from channel.sessionID, which on a server channel is stored only by the constructor from the parameter the accept loop generated (never adopted from a peer's envelope)", 21)
 	R1 := r.Rule("R1", "one channel per dispatch: in the dispatch loop the session context, every stream/done accessor of the select and the Sender handed to each handler function all derive from the loop function's single channel parameter", 8)
 	R2 := r.Rule("R2", "context keys: the session context stores the channel's id, remote node and local node under three distinct keys of an unexported type, and each exported getter loads the key under which a value of its asserted type was stored", 6)
 	R3 := r.Rule("R3", "fresh identity: every server channel is built from a session id generated in the same loop iteration and the transport just dequeued, and the serving goroutine captures that iteration's channel", 3)
@@ -510,6 +511,7 @@ func canHoldSessionData(t types.Type, s *Sem, d int) bool {
 func c20(r *Report, s *Sem) {
 	p := r.P
 	a := s.anchors()
+	defer r.Import(s, "C05", "R2", "R9", "a response whose request has given up is an ordinary inbound envelope: the pending entry is removed by a deferred delete on every exit after the insert, so a late response misses the table and reaches the response handlers instead of an abandoned reply slot", 5)
 	R1 := r.Rule("R1", "registration keeps order: each registration method appends the handler at the end of its kind's slice, and the …HandlerFunc variants wrap predicate and function into the adapter unchanged", 8)
 	R2 := r.Rule("R2", "each handle function scans its kind's slice in ascending order; Handle is called only on the true edge of Match of the same element and the same envelope; after a Handle call no path re-enters the loop (error ⇒ wrapped error returned, success ⇒ loop left); falling off the end returns nil", 12)
 	R3 := r.Rule("R3", "adapters: a nil predicate matches; otherwise Match is the predicate's verdict on the same envelope", 4)
@@ -782,6 +784,32 @@ func c20(r *Report, s *Sem) {
 				}})
 			r.Check(R4, "func "+fnName(a.listenFn)+" / error of "+g.Name()+" stops the dispatch loop", p.instrPos(c), okRet && !reenters, "a handler error must end the loop with that error")
 		})
+	}
+
+	// ---- R8
+	R8 := r.Rule("R8", "a handler's error ends its own session only: the context each session is served under derives from the serve entry point's context through the context package alone — never from a construct (an error group, a shared cancel) that one session's outcome can cancel for the others", 1)
+	if serving, _ := servingFunc(s); serving != nil {
+		n := 0
+		for _, c := range p.callersOf(serving) {
+			for _, arg := range c.Common().Args {
+				nm := namedOf(arg.Type())
+				if nm == nil || nm.Obj().Name() != "Context" || nm.Obj().Pkg() == nil || nm.Obj().Pkg().Path() != "context" {
+					continue
+				}
+				n++
+				r.Check(R8, "func "+fnName(c.Parent())+" / context handed to the session's serving function", p.instrPos(c), ctxFromParam(arg, 0),
+					"the context is "+describe(arg)+": it must be the accept loop's own context parameter (or context.With* of it), so that only a shutdown cancels it")
+			}
+			// the serving function's outcome is not observed: nothing another session depends on can react to it
+			if v, ok := c.(ssa.Value); ok && v.Referrers() != nil && len(*v.Referrers()) > 0 {
+				r.Check(R8, "func "+fnName(c.Parent())+" / outcome of one session is not fed back", p.instrPos(c), false, "the result of the serving function is used by its caller")
+			}
+		}
+		if n == 0 {
+			r.Undecided(R8, "serving function / context argument", "-", "no call site with a context argument")
+		}
+	} else {
+		r.Undecided(R8, "anchor-unresolved:serving function", "-", "not found")
 	}
 
 	// ---- R7
